@@ -41,3 +41,17 @@ package config
 //@   observe wf := call WriteFile
 //@   modifies heap "[]*yaml.Comment", heap "[]string"   # the comment map built for the encoder
 //@   ensures [file-replaced-with-encoding] err == nil ==> mw.count == 1 && mw.res1 == nil && wf.count == 1 && wf.res0 == nil && wf.arg1 == mw.res0 && mw.arg0.val == c
+
+// loadFromViper decodes all settings of the viper it is given into a copy of the defaults. Values reach
+// the options as the decoder produces them: the only conversions are the three registered ones
+// (duration strings, comma-separated lists, DurationWrapper) - nothing rewrites other values on the way.
+// What mapstructure does with them is assumed.
+//@ func loadFromViper(v, home) (cfg, err)
+//@   property C18
+//@   requires [viper] v != nil
+//@   observe ch := call ComposeDecodeHookFunc
+//@   observe dec := call Decode
+//@   observe as := call AllSettings
+//@   ensures [decode-hooks] ch.count == 1 && len(ch.arg0) == 3
+//@   ensures [decodes-all-settings] err == nil ==> dec.count == 1 && dec.res0 == nil && as.count == 1 && as.arg0 == v
+//@   ensures [home] err == nil ==> cfg.RootDir == home
